@@ -1,5 +1,6 @@
-package roaring
+package server_test
 
+// GENERATED COPY of harness/pkg/roaring/c06_bytes_test.go (package clause changed) — do not edit here.
 // C06 — byte-level encoders of the two roaring formats (written from the format descriptions in
 // docs/architecture.md and the RoaringFormatSpec, independent of the code under test) and
 // structure-aware mutators. This file is copied verbatim (except the package clause) to
